@@ -15,6 +15,7 @@ FILES = {
     "zz_verif_c08_multikey_test.go": "C08/multikey_test.go",
     "zz_verif_c08_sizers_test.go": "C08/sizers_test.go",
     "zz_verif_c08_regress_test.go": "C08/regress_test.go",
+    "zz_verif_c08_indep_test.go": "C08/indep_test.go",
 }
 
 
@@ -65,7 +66,7 @@ class P(vlib.Prop):
             "model accepts), 4 value->JSON tree, 5 JSON tree->value incl. the alternate forms (one-sided). A case is non-trivial when the "
             "encoding has > 2 bytes / the input is non-empty; distinct = distinct case terms.")
     trusted_base = [
-        "Coq 8.16.1 kernel + vm_compute (coqc); no axioms (Print Assumptions: closed under the global context for all 47 theorems)",
+        "Coq 8.16.1 kernel + vm_compute (coqc); no axioms (Print Assumptions: closed under the global context for all 49 theorems)",
         "translator T1 (tools/go2coq, props/C08/t1_spec.json): the ten sovX helpers, TraceID/SpanID/ProfileID.Size and the typed enum constants are read from the current source; math/bits.Len64 is taken to be N.size",
         "schema translator: harness/C08/schema_test.go reads struct tags, XXX_OneofWrappers and Go field types of pdata/internal/data/protogen/** by reflection on every run and probes each message's emission order by marshalling; validated by the byte-exact correspondence",
         "JSON decoder table: obtained on every run by running the real jsoniter decoders on one minimal document per message x key x token form (harness/C08/jsonmodel_test.go); validated by case kind 5",
